@@ -61,6 +61,7 @@ def _worker_main(engine, profile, seed, indices, outpath, prop, deadline, opts):
     import faulthandler
     faulthandler.enable()
     ctx = None
+    known_saved = 0
     try:
         ctx = engine.setup_worker()
         with open(outpath, 'w') as out:
@@ -79,8 +80,15 @@ def _worker_main(engine, profile, seed, indices, outpath, prop, deadline, opts):
                     engine.finalize(scn, obs)
                     discs, stats, states = engine.judge(scn, obs)
                     rec.update(digest=digest(obs), stats=stats, states=states, nops=engine.size(scn), sdigest=digest(scn))
-                    rec['discs'] = [{'prop': d['prop'], 'inv': d['inv'], 'msg': d['msg'], 'op': d.get('op')} for d in discs]
-                    if discs and (any(d['prop'] == prop for d in discs) or opts.get('save_all')):
+                    rec['discs'] = [{'prop': d['prop'], 'inv': d['inv'], 'msg': d['msg'], 'op': d.get('op'), 'zone': d.get('zone')} for d in discs]
+                    kz = set(opts.get('known_zones') or ())
+                    mine_d = [d for d in discs if d['prop'] == prop]
+                    fresh = [d for d in mine_d if d.get('zone') not in kz]
+                    save = bool(fresh) or opts.get('save_all')
+                    if mine_d and not fresh and known_saved < 2:
+                        known_saved += 1
+                        save = True
+                    if discs and save:
                         fdir = OUT / 'fail' / prop
                         fdir.mkdir(parents=True, exist_ok=True)
                         fp = fdir / f'{profile}-{seed}-{idx}.json'
